@@ -15,6 +15,11 @@
    code (fast path clones the read; a consumed history becomes nil); the two other variants are the
    code without the respective repair - the theorems are about [cur], the refutations show that
    the model still contains Go's aliasing and that each repair is necessary.
+   Headers: d_hdr is a VALUE in this model, so a defect that SHARES a *Header / *JTMessage object
+   between two holders (the class of fixes 4b6a3bd: timeout record and first packet, a3fb0a0: merged
+   message and last packet) is NOT expressible here; what justifies the value - only Header.decode
+   assigns the listed fields, on a fresh JTMessage - is checked on the sources by the harness
+   (C09/header-field-assigned, fails closed: C09/header-scan-empty) and named in checks/C09.json.
    All relative timings of "the reader receives the next data" and "a handler / the writer still
    holds the message" are the positions j >= k+1 at which the content is inspected; truly
    concurrent access to the same bytes is C18's subject. *)
@@ -85,8 +90,9 @@ Print Assumptions C09_reply_frame_own.
 (* reassembly works on the packets' own bytes: (1) completePack stores the packet's own Body slice
    in the slot of its number; (2) in every reachable state a stored slice keeps its content
    whatever the connection does afterwards; (3) the completed message's body (= its TerminalData,
-   = the body shown by the packet that completed it) is a fresh array holding the concatenation
-   of what the stored slices denote at that moment *)
+   = the body shown by the packet that completed it) denotes the concatenation of what the stored
+   slices denote at that moment (that the array is a new allocation is in the model's definition;
+   its consequence - nothing later changes it - is C09_stable) *)
 Theorem C09_reassembly_stores_own_slice : forall h r m h' r' m',
   complete_pack h r m = (h', r', m', None) ->
   let sum := N.to_nat (m_sum (d_hdr m)) in
@@ -145,6 +151,7 @@ Proof. exact refuted_alias. Qed.
 Print Assumptions C09_refuted_without_clone.
 Theorem C09_refuted_without_clone_close : changes prefix_fastpath_alias 1023 ex_close_evs.
 Proof. exact refuted_alias_close. Qed.
+Print Assumptions C09_refuted_without_clone_close.
 (* with historyData = historyData[0:0] instead of nil: a frame split over two reads, then two
    frames in one read - append writes them over the first frame *)
 Theorem C09_refuted_with_history_reuse : changes prefix_history_reuse 1023 ex_reuse_evs.
@@ -174,4 +181,27 @@ Example C09_example_reassembly :
   d_complete cm = true /\
   map (fun j => content (p_heap (state_at cur 1023 evs j)) cm) [2; 3]%nat =
     [([65; 66; 67; 68], [65; 66; 67; 68], [1; 35; 69; 103; 137; 1]); ([65; 66; 67; 68], [65; 66; 67; 68], [1; 35; 69; 103; 137; 1])].
+Proof. vm_compute. split; reflexivity. Qed.
+
+(* C09_reply_frame_stable / _own computed: an unfragmented 0x0801 whose 0x8800 reply carries the
+   multimedia id read from the body, evaluated right after delivery and after the next read *)
+Example C09_example_reply_frame :
+  let hdr1 := {| m_id := 2049; m_len := 0; m_enc := 0; m_frag := 0; m_ver := 0; m_bcd := [1; 35; 69; 103; 137; 1];
+                 m_serial := 0; m_sum := 0; m_no := 0; m_body := []; m_check := 0 |} in
+  let body := [222; 173; 190; 239] ++ repeat 7 32 in
+  let evs := [Read (encode hdr1 2049 9 body) false 0; Read ex_f1 false 0] in
+  let m := delivered_nth cur 1023 evs 0 0 in
+  map (fun j => reply_frame_at (p_heap (state_at cur 1023 evs j)) m Reply.RMedia Reply.hstate0 34816 5) [1; 2]%nat =
+  [Some (encode (d_hdr m) 34816 5 [222; 173; 190; 239]); Some (encode (d_hdr m) 34816 5 [222; 173; 190; 239])].
+Proof. vm_compute. reflexivity. Qed.
+
+(* C09_reassembly_stores_own_slice / _slots_stable on the transfer of C09_example_reassembly: after
+   packet 1 its Body slice sits in slot 0 of the record and denotes [65;66] also after the next read *)
+Example C09_example_slots :
+  let pkt no body := escape (let q := [8; 1; 32; 2; 1; 35; 69; 103; 137; 1; 0; no; 0; 2; 0; no] ++ body in q ++ [xor_all q]) in
+  let evs := [Read (pkt 1 [65; 66]) false 0] in
+  let st := run cur 1023 evs in
+  let st' := fold_left (fun st e => o_st (step cur 1023 st e)) [Read ex_f1 false 0] st in
+  map (fun kv => map (deref (p_heap st)) (snd kv)) (p_rec st) = [[[65; 66]; []]] /\
+  map (fun kv => map (deref (p_heap st')) (snd kv)) (p_rec st) = [[[65; 66]; []]].
 Proof. vm_compute. split; reflexivity. Qed.
